@@ -67,6 +67,11 @@ CHECKS['C07'] = ('model_checking', '§5 C07',
     'The reference evaluator has no TCO (plain recursion); classification of each template as tail / non-tail is by the book rule; alias/partial may be optimised or not.',
     'exhaustive enumeration of call positions x iteration counts x limit configurations vs reference semantics without TCO')
 
+CHECKS['C10'] = ('exploration', '§5 C10',
+    'Under search=50 and calls=200 (with and without an 8 MiB size limit) and a 5 s per-case watchdog: every generator pipeline source (infinite, huge, empty, repeat of empty, successors) x <=1 adaptor plus all pairs led by the adaptors that iterate internally (quick) / all pairs and hot triples (thorough, 330k cases) x 15 consumers; every infinite or huge sequence x 34 consuming builtins; 60 adversarial numeric calls (digits with bases <2 and 2^70, binom/multinom/combination/permutation with 10^6..2^70, pow(2,10^9), 10**(10**6) then to_str/digits/format, factorial(10^6), "a"*10^12, huge windows/chunks/repeat counts, deep JSON nesting, padding widths of 10^10). A case must return a value, an error or a violation; a hang or an abort of the process is a violation. With time_limit=0: programs with a user call end in Timeout and no function body prints; programs without user calls are unaffected.',
+    'Establishes "no enumerated case exceeds the budget", not termination in general; memory-hungry cases run only with the size limit; timing other than "already elapsed" is not explored (Instant::now is not behind a seam).',
+    'bounded-exhaustive enumeration of pipelines and adversarial arguments under a watchdog')
+
 NA = {
 }
 
